@@ -204,6 +204,43 @@ def _callback_origin(blocks, op, hops=6):
     return None
 
 
+def closure_shape(raw):
+    """arity and the names a closure calls, as recorded by engine/gen_closure_shapes.py"""
+    names = []
+    for bl in raw["blocks"]:
+        t = bl.get("t") or {}
+        if t.get("k") == "call" and not bl.get("cleanup"):
+            cal = t.get("callee")
+            names.append((cal.get("name") or "?") if isinstance(cal, dict) else "?")
+    return "%d|%s" % (raw.get("argc", 0), ",".join(sorted(names)))
+
+
+_CLOSURE_SHAPES = None
+
+
+def _closure_is_frozen(crate, d):
+    """Closures are numbered in source order: when a function has gained or lost one since the freeze, `{closure#0}` of today need not be the
+    `{closure#0}` of the frozen list. A closure is the frozen one of that name only if it still has the frozen shape; otherwise it is read like a helper
+    written after the freeze: called directly where it is defined (`let mut link_lost = || ..; link_lost()`), its body is part of the function."""
+    global _CLOSURE_SHAPES
+    if _CLOSURE_SHAPES is None:
+        p = os.path.join(os.path.dirname(os.path.dirname(os.path.abspath(__file__))), "closure_shapes.json")
+        try:
+            _CLOSURE_SHAPES = json.load(open(p))
+        except Exception:
+            _CLOSURE_SHAPES = {}
+    want = (_CLOSURE_SHAPES.get(crate.name) or {}).get(d)
+    if want is None:
+        return True   # no shape on record: the name decides, as before
+    cache = crate.__dict__.setdefault("_shape_cache", {})
+    if d not in cache:
+        try:
+            cache[d] = closure_shape(crate._raw(d)) == want
+        except Exception:
+            cache[d] = True
+    return cache[d]
+
+
 def inline_new_helpers(crate, raw, defpath, depth=3):
     """Splice the bodies of crate-local functions that are not in the frozen function list into `raw` (the MIR facts of a known function)."""
     known = _known_fns().get(crate.name)
@@ -281,7 +318,7 @@ def inline_new_helpers(crate, raw, defpath, depth=3):
                 nb["t"] = {"line": line, "k": "goto", "t": entry_blk}
                 blocks[i] = nb
                 inlined.append(d)
-        elif d and "{closure" in d and d in crate.by_def and (d not in known or forced) and d != defpath and (cal.get("via") or {}).get("name") in ("call", "call_mut", "call_once") \
+        elif d and "{closure" in d and d in crate.by_def and (d not in known or forced or not _closure_is_frozen(crate, d)) and d != defpath and (cal.get("via") or {}).get("name") in ("call", "call_mut", "call_once") \
                 and budget > 0 and len(t.get("args", [])) == 2 and inlined.count(d) < 8 and not blocks[i].get("cleanup") and not (crate.by_def[d].get("coroutine") or crate.by_def[d].get("kind") == "SyntheticCoroutineBody"):
             # a local closure written after the freeze and called directly (`let is_unanimous = |ordering| ..; if is_unanimous(Relaxed) ..`): its body
             # runs here; the arguments arrive as one tuple
